@@ -726,6 +726,36 @@ func (g *Gen) opSet() bool {
 		cand = g.regNames()
 	}
 	cs := g.subset(cand, 1, 1)
+	// MapN.Set of several components; sometimes one of them is missing on the entity: the call must
+	// be rejected WITHOUT having written the others (C10, C20: the builds must agree on the values too)
+	if alive && len(cand) >= 2 && g.chance(0.3) {
+		wide := g.subset(cand, 2, 3)
+		if g.chance(0.2) {
+			has := g.compsOf(l)
+			var missing []int
+			for _, n := range g.regNames() {
+				if !has[n] {
+					missing = append(missing, n)
+				}
+			}
+			if len(missing) > 0 {
+				wide[len(wide)-1] = missing[g.pick(len(missing))]
+			}
+		}
+		wide = g.tupleOrder(wide)
+		var wcs []*regComp
+		for _, n := range wide {
+			wcs = append(wcs, g.h.comps[n])
+		}
+		if _, ok := mapperCtors[tupleKey(wcs)]; ok {
+			var parts []string
+			for _, n := range wide {
+				parts = append(parts, fmt.Sprintf("c%d:%d", n, g.val()))
+			}
+			g.emit(fmt.Sprintf("set %s t %s", el, strings.Join(parts, " ")))
+			return true
+		}
+	}
 	cs = g.tupleOrder(cs)
 	p := g.path(cs, false)
 	if p == "" {
